@@ -260,7 +260,7 @@ META = {
     "C13": {
         "level": "exploration",
         "evaluations": ["fuzz_cases", "repeat_runs", "tail_runs"],
-        "required": ["fuzz_cases", "status:pass", "status:skip", "status:fail", "overruns", "tail_runs", "repeat_runs",
+        "required": ["fuzz_cases", "status:pass", "status:skip", "status:fail", "overruns", "tail_runs", "repeat_runs", "text_inputs",
                      "len_mod8:0", "len_mod8:1", "len_mod8:2", "len_mod8:3", "len_mod8:4", "len_mod8:5", "len_mod8:6", "len_mod8:7"],
         "show": ["fuzz_cases", "status:pass", "status:skip", "status:fail", "overruns", "tail_runs", "repeat_runs"],
         "rule": "random programs (and Bool-only programs) run through MakeFuzz in real *testing.T sub-tests on byte strings that are hostile word "
